@@ -4,14 +4,16 @@ CONSTANTS MaxSchema, MaxOps, MaxFaults, Emitting
 FaultCount(p) == LET RECURSIVE S(_, _) S(s, i) == IF i > Len(s) THEN 0 ELSE Cardinality(s[i]) + S(s, i + 1)
                  IN S(p.schema, 1) + S(p.ops, 1)
 Seqs(S, lo, hi) == UNION {[1..n -> S] : n \in lo..hi}
-Projects == {p \in [schema : Seqs(SUBSET SchemaFaults, 1, MaxSchema), ops : Seqs(SUBSET OpFaults, 1, MaxOps),
+Projects == {p \in [schema : Seqs(SUBSET SchemaFaults, 1, MaxSchema), ops : Seqs(SUBSET OpFaults, 0, MaxOps),
                     commands : {<<"check">>, <<"generate">>, <<"check", "generate">>, <<"generate", "check">>},
                     gen : SUBSET {"resolvers", "server", "noschema", "runtime", "runtimeDts"}] :
                /\ FaultCount(p) <= MaxFaults
                \* optional outputs are varied where they can matter: generate requested, at most one fault
                /\ (p.gen # {} => (FaultCount(p) <= 1 /\ p.commands \in {<<"generate">>, <<"check", "generate">>}))
                \* a configuration without schemaOutput is only interesting together with the server schema output, on a fault-free project
-               /\ ("noschema" \in p.gen => ("server" \in p.gen /\ FaultCount(p) = 0))
+               /\ ("noschema" \in p.gen => (p.gen \cap {"server", "resolvers"} # {} /\ FaultCount(p) = 0))
+               \* a project without operation documents (server side only): fault-free schema, every combination of the outputs
+               /\ (Len(p.ops) = 0 => FaultCount(p) = 0)
                \* emitSchemaRuntime: into a .ts schema output (fine) or into a .d.ts one (rejected); not combined with the other variations
                /\ ("runtime" \in p.gen => p.gen \subseteq {"runtime", "resolvers"})
                /\ ("runtimeDts" \in p.gen => (p.gen \subseteq {"runtimeDts", "resolvers"} /\ FaultCount(p) = 0))}
